@@ -38,6 +38,15 @@ CLAIMED = {
  "C13": ("PARTIAL proof. Lean theorems: the name codec round trip for well-formed labels at any position of any message (C13_name_roundtrip), the header flag-word round trip for all field values in range, the AddPadding length law (encoded length % 128 = 0 whenever AddPadding and the encoder succeed: C13_padding) and the extended-RCODE law. The whole-message round trip for every encoder record type and the two-way agreement with golang.org/x/net/dns/dnsmessage (incl. compression produced by the other side, MX/SOA/TXT/SRV) are carried by the campaign: exhaustive over all 8192 header combinations and all question-name lengths 0..253, names of 0..127 labels, random HTTPS parameter sets and EDNS options.",
          "Lean kernel + propext/Quot.sound/Classical.choice; hand-written model tied to the Go code by the differential correspondence check; whole-message round trip and agreement with the independent codec are checked on generated messages, not proved.",
          "Lean 4 proof (name codec round trip, padding arithmetic) + differential correspondence incl. an independent DNS codec", "5/C13"),
+ "C14": ("Lean theorems over the model of Resolve / resolveOneNoCache for every universe of DNS data: the HTTPS query name has the RFC 9460 form (C14_qnames), over-long host or constructed names are refused before any query (C14_invalid_name), every datum used comes from a record of the asked type whose owner is the queried name or reached from it by the CNAME records preceding it in that answer - unrelated owners are never used (C14_owner), the alias walk asks at most 4 HTTPS questions, never the same name twice (C14_alias), target lookups are bounded by two per service target (C14_targets_bounded), records are a priority-sorted permutation (C14_sorted), response codes 1..5 map to the documented errors and NXDOMAIN on the HTTPS lookup is absence. Tie: random zones with alias chains/loops, in-answer CNAME chains, poisoned extra answers, error codes, all name forms/ports/schemes/lengths, through the real Resolver and a logging local DoH server (exact query log compared).",
+         "Lean kernel + propext/Quot.sound/Classical.choice; hand-written model tied to the Go code by the differential correspondence check; url.Parse / net.SplitHostPort / strconv.ParseUint / net.ParseIP / strings.ToLower results are computed by the Go standard library and passed to the model as data; sort.Slice is modelled as a stable insertion sort (what Go does for <= 12 elements).",
+         "Lean 4 proof (function over an arbitrary DNS universe, list inductions) + differential correspondence with exact query logs", "5/C14"),
+ "C15": ("Lean theorems: the iterator equals the declarative TargetsSpec (C15_refines: service records in order, own addresses / port with 80->443 upgrade / ECH / ALPN (+http/1.1), family restriction, first occurrence of each address/port, plain addresses only when no record produced a target), no duplicate address/port pairs, family restriction, alias-mode records ignored, every target carries its own record's data (C15_own_record), early termination yields a prefix, and - on the Go-slice model - appending after slices.Clip never writes into the record's backing array (C15_no_writes). Tie: generated results x 6 networks x every stop point, with ALPN slices with spare capacity and a sentinel; TargetsSpec evaluated in Lean on the implementation's output.",
+         "Lean kernel + propext/Quot.sound/Classical.choice; hand-written model tied to the Go code by the differential correspondence check; Go slice semantics (append in place when len < cap) as encoded in goAppend/goClip; netip address identity = byte identity.",
+         "Lean 4 proof (refinement of the iterator to a declarative spec) + differential correspondence", "5/C15"),
+ "C16": ("PARTIAL proof. Lean theorems over the cache model with an arbitrary clock and universe per step: every answer is either fetched during the call or a stored result younger than the smallest TTL of the response it came from (C16_fresh), zero-TTL and expired entries are always re-fetched, unexpired entries are served without an upstream query, failures are never stored, and the invariant is preserved by every critical section, hence by every interleaving of lookups by any number of goroutines with clock advances, zone changes, upstream failures and evictions (C16_atomic). Data-race freedom is a Go memory-model fact: observed with the race detector in the thorough tier (plus C15_no_writes), not proved. Tie: exhaustive histories over {resolve a/b/c, advance 3/8/301 s, zone toggle, failure toggle} through the real Resolver with an injected clock, compared with the model (results and upstream queries with times) and an independent Go freshness monitor.",
+         "Lean kernel + propext/Quot.sound/Classical.choice; hand-written model tied to the Go code by the differential correspondence check; hook VerifSetClock (build tag verif); the 2Q eviction policy is abstracted as 'may forget any entry'; each lock-protected section is one atomic step; data races observed with -race.",
+         "Lean 4 proof (invariant over histories / interleavings) + exhaustive bounded history enumeration as correspondence + race detector", "5/C16"),
  "C11": ("Lean 4 theorems over the model of config.go (round trip with arbitrary trailing bytes, list round trip, "
          "exact definedness condition of Bytes, rejection of every strict prefix, no over-read, well-formedness against an "
          "independent transcription of the draft section 4 grammar), for all ids / names / suites / keys; the model is tied "
